@@ -344,9 +344,7 @@ func (s *Stack) ForEach(expr string, fn func(index int, value any) error) error 
 	case reflect.Map:
 		keys := rv.MapKeys()
 		sort.Slice(keys, func(i, j int) bool {
-			// the type breaks ties between keys that print alike (1 and "1" in a map[any]any)
-			a, b := keys[i].Interface(), keys[j].Interface()
-			return fmt.Sprintf("%v|%T", a, a) < fmt.Sprintf("%v|%T", b, b)
+			return keyLess(keys[i].Interface(), keys[j].Interface())
 		})
 		for i, key := range keys {
 			if err := fn(i, rv.MapIndex(key).Interface()); err != nil {
@@ -358,6 +356,16 @@ func (s *Stack) ForEach(expr string, fn func(index int, value any) error) error 
 
 	return nil
 	// return fmt.Errorf("unsupported collection type: %T, expr: %s", v, expr)
+}
+
+// keyLess orders map keys by their printed form; the type only breaks ties between
+// keys that print alike (1 and "1" in a map[any]any).
+func keyLess(a, b any) bool {
+	sa, sb := fmt.Sprint(a), fmt.Sprint(b)
+	if sa != sb {
+		return sa < sb
+	}
+	return fmt.Sprintf("%T", a) < fmt.Sprintf("%T", b)
 }
 
 // Helpers
